@@ -485,16 +485,45 @@ func ruleEvGate(w *World, r *Report) {
 				return
 			}
 			n++
-			check := func(facts []Fact) bool {
+			isOpt := func(v ssa.Value) bool {
+				if lk, ok := v.(*ssa.Lookup); ok {
+					if _, okm := loadOfField(lk.X, "Config", "CompileOptions"); okm {
+						if s, oks := constString(unwrapConv(lk.Index)); oks && (s == "report_event" || s == "debug") {
+							return true
+						}
+					}
+				}
+				return false
+			}
+			var check func(facts []Fact) bool
+			check = func(facts []Fact) bool {
 				for _, f := range facts {
 					if !f.Truth {
 						continue
 					}
-					if lk, ok := f.Cond.(*ssa.Lookup); ok {
-						if _, okm := loadOfField(lk.X, "Config", "CompileOptions"); okm {
-							if s, oks := constString(unwrapConv(lk.Index)); oks && (s == "report_event" || s == "debug") {
-								return true
+					if isOpt(f.Cond) {
+						return true
+					}
+					// the disjunction computed into a variable first: every way the value can be true is one of the options
+					if p, ok := f.Cond.(*ssa.Phi); ok && len(p.Edges) >= 2 {
+						all := true
+						for i, e := range p.Edges {
+							if isOpt(e) {
+								continue
 							}
+							if b, okb := constBool(e); okb {
+								if !b {
+									continue // this way the value is false: the call is not reached
+								}
+								pred := p.Block().Preds[i]
+								if check(append(factsAtLocal(pred), factsAtEdgeTo(pred, p.Block())...)) {
+									continue
+								}
+							}
+							all = false
+						}
+						if all {
+							return true
 						}
 					}
 				}
